@@ -116,7 +116,9 @@ impl SegmentIndexReader {
         trace!("Index file length: {} bytes.", file_size);
 
         let relative_start_offset = (index_start_offset - segment_start_offset) as u32;
-        let relative_end_offset = (index_end_offset - segment_start_offset) as u32;
+        // Saturate instead of truncating: the end offset of a poll may lie far beyond the segment.
+        let relative_end_offset =
+            std::cmp::min(index_end_offset - segment_start_offset, u32::MAX as u64) as u32;
         let mut index_range = IndexRange::default();
 
         let buf = match self.read_at(0, file_size).await {
